@@ -1020,6 +1020,7 @@ class Exec:
         work = list(states)
         budget = self.opts.get('join_states', 64)
         token = (depth, J, next(_objctr))
+        self._join_leftover = []
         while work:
             st = work.pop()
             st.joins.append(token)
@@ -1050,9 +1051,12 @@ class Exec:
                             break
                         work.extend(rest[1:])
                         st = rest[0]
-                        st.joins.append(token)
                         if len(work) + len(joined) > budget:
-                            raise TooManyJoinStates()
+                            # too many states in this region: give up the conversion, hand
+                            # everything back to the caller to continue as ordinary forks
+                            self._join_leftover = [st] + work
+                            return joined, escaped
+                        st.joins.append(token)
             except JoinReached:
                 st.joins.pop()
                 joined.append(st)
@@ -2258,12 +2262,23 @@ def h_if(ex, st, fr, ins):
         except JoinReached:
             s2.joins.pop()
             joined.append(s2)
-    try:
-        ex._join_ctx = '%s block %d' % (fr.fid, ifblock)
-        j2, escaped = ex.explore_to_join(starts, depth, J)
-    except TooManyJoinStates:
-        raise EngineError('if-conversion budget exceeded in %s' % fr.fid)
+    ex._join_ctx = '%s block %d' % (fr.fid, ifblock)
+    j2, escaped = ex.explore_to_join(starts, depth, J)
     joined.extend(j2)
+    leftover = ex._join_leftover
+    ex._join_leftover = []
+    if leftover:
+        ex.res.notes.append('if-conversion budget exceeded in %s: continued as ordinary forks' % fr.fid)
+        for s2 in joined:
+            s2.at_join = (depth, J)
+        allst = joined + leftover
+        ex.res.forks += len(allst) - 1
+        if any(s2 is st for s2 in allst):
+            allst = [st] + [s2 for s2 in allst if s2 is not st]
+        else:
+            st.__dict__.update(allst[0].__dict__)
+            allst[0] = st
+        return allst
     out_states = [s for (_, s) in escaped]
     if escaped:
         raise EngineError('path left the function inside an if-conversion region (%s)' % fr.fid)
